@@ -197,6 +197,9 @@ def run(prop, tier, seed, replay=None, max_cases=None):
     eng = importlib.import_module(f'engines.{prop}')
     theorems = list(eng.THEOREMS)
     evidence_path = os.path.join(ROOT, 'evidence', f'{prop}.json')
+    if os.path.realpath(REPO) != '/repo' or replay:
+        # scratch trees (mutation tests, seeded changes) and replays never touch the registered evidence
+        evidence_path = os.path.join(ROOT, 'replays', 'scratch-evidence', f'{prop}.json')
     os.makedirs(os.path.dirname(evidence_path), exist_ok=True)
     violations = []        # (replay_path, suffix)
     known_hits = {}        # finding id -> count
